@@ -100,6 +100,10 @@ func genOps(t *rapid.T) []op {
 			{"HSET", k, "f", v}, {"RPUSH", k, v, "e"}, {"SADD", k, v, "m"}, {"ZADD", k, "1", v}, {"APPEND", k, v}, {"INCR", k},
 			{"GET", k}, {"GET", k}, {"TYPE", k}, {"TOUCH", k}, {"TOUCH", k, rapid.SampledFrom(keys).Draw(t, "k3")}, {"MGET", k, rapid.SampledFrom(keys).Draw(t, "k4")},
 			{"EXPIRE", k, "1000"}, {"PERSIST", k}, {"DEL", k}, {"LPOP", k}, {"SREM", k, "m"},
+			// writes that modify a stored collection and then pass it through the admission check: when that
+			// refuses them at the limit, nothing may have changed
+			{"LSET", k, "0", v}, {"HINCRBY", k, "n", "1"}, {"HINCRBYFLOAT", k, "n", "1.5"}, {"HDEL", k, "f"}, {"LTRIM", k, "0", "0"}, {"LREM", k, "0", "e"},
+			{"ZINCRBY", k, "1", v}, {"SETRANGE", k, "1", v}, {"LPUSHX", k, v}, {"HSETNX", k, "g", v},
 		}
 		if rapid.IntRange(0, 40).Draw(t, "flush") == 0 {
 			ops = append(ops, op{DB: db, Cmd: []string{"FLUSHDB"}})
@@ -112,6 +116,9 @@ func genOps(t *rapid.T) []op {
 
 // storesThroughKeyspace: commands whose write goes through the keyspace's admission check.
 var storing = map[string]bool{"SET": true, "MSET": true, "HSET": true, "RPUSH": true, "APPEND": true, "INCR": true, "LPOP": true}
+
+// (The added collection writers are not in this set: whether they are refused at the limit is not asserted, only
+// that a refused one changes nothing, which the survivor comparison with the twin decides.)
 
 func waitIdle() bool { return verifhook.WaitAsyncIdle(sut.Patience(10 * time.Second)) }
 
